@@ -52,7 +52,7 @@ MANIFEST = dict(
               "check on real temporary directories (state-based) with fault enumeration (every choice of one missing listed file); "
               "negation witness + matcher for the recorded finding",
 )
-PROP_FILES = ["HtmlVerif/Props/C12.lean", "HtmlVerif/Props/ConstsDeps.lean", "HtmlVerif/Props/SrcC12.lean"]
+PROP_FILES = ["HtmlVerif/Props/C12.lean", "HtmlVerif/Props/ConstsDeps.lean", "HtmlVerif/Props/SrcC12.lean", "HtmlVerif/Props/SrcC12b.lean"]
 
 V = fsops.VROOT
 
@@ -968,6 +968,7 @@ def run(tier: str) -> int:
             ck.holds_checked += 1
             py_oracle(ck, l, im)
     ck.add_src(['HTMLDependency_source_path_map', 'HTMLDependency_as_dict', 'HTMLDependency_as_html_tags'])
+    __import__("srctie_c12b").add_src_c12b(ck, ['HTMLDependency_copy_toC12b', 'HTMLDocument_save_htmlC12b', 'Tag_save_htmlC12b', 'TagList_save_htmlC12b'])
     ck.correspond(holds=True)
     repeat_save_oracle(ck, ck.budget(12, 150))
     cov = clause_coverage(ck, lines)
